@@ -2,6 +2,7 @@ package m04
 
 import (
 	"reflect"
+	"strings"
 	"testing"
 )
 
@@ -37,5 +38,48 @@ func TestLines(t *testing.T) {
 func TestScramble(t *testing.T) {
 	if Scramble(0) != 0 {
 		t.Error("Scramble(0) must be 0")
+	}
+}
+
+func TestES5Pattern(t *testing.T) {
+	valid := []string{"", "a", "ab+c", "[/]", "\\/", "[^\\]/]x", "a|b", "(?:x)", "\\d+", "[a-z]*", "=", "\\[", "x{1,2}", "^$", ".", "[/*]", "(a)(b)\\2", "[)]", "[(]", "\\(",
+		"a{2}", "[+]", "\\?", "[?+*]", "\\u0041", "\\x41", "\\cA", "\\s\\S", "\\w\\W\\b", "[[]", "[\\]]x", "(?=a)b", "(?!a)", "a*?", "a+?", "a??", "a{1,}?", "[a-]", "[-a]", "[\\b]", "\\0", "((a)|(?:b))*", "a||b", "()", "(|)"}
+	for _, s := range valid {
+		if err := ES5Pattern(s, true); err != nil {
+			t.Errorf("strict rejects valid %q: %v", s, err)
+		}
+		if err := ES5Pattern(s, false); err != nil {
+			t.Errorf("lenient rejects valid %q: %v", s, err)
+		}
+	}
+	lenientOnly := []string{"a{", "a}", "]", "{", "a{,5}", "\\a", "\\c", "\\x4", "\\u12", "[\\d-a]", "(?=a)*", "\\9", "a{b}"}
+	for _, s := range lenientOnly {
+		if err := ES5Pattern(s, true); err == nil {
+			t.Errorf("strict accepts %q", s)
+		}
+		if err := ES5Pattern(s, false); err != nil {
+			t.Errorf("lenient rejects %q: %v", s, err)
+		}
+	}
+	for _, s := range append([]string{"(", ")", "*", "a**", "+a", "?", "a{2,1}", "[b-a]", "[a", "(?i)a", "((?i)a)", "(?:x(?P<n>y))+", "(a|(?s:.))*", "(((?U)a+))", "\\", "{1}", "a|*", "^*", "\\b+", "(?<=a)"}, reDefects...) {
+		if err := ES5Pattern(s, false); err == nil {
+			t.Errorf("lenient accepts invalid %q", s)
+		}
+	}
+	seenDepth := map[int]int{}
+	for seed := 0; seed < 20000; seed++ {
+		body, depth, defect := NestedBadRegex(seed)
+		seenDepth[depth]++
+		if err := ES5Pattern(body, false); err == nil {
+			t.Fatalf("seed %d: generated body %q (defect %q, depth %d) is a valid pattern", seed, body, defect, depth)
+		}
+		if strings.ContainsAny(body, " \n\r") || strings.HasPrefix(body, "*") {
+			t.Fatalf("seed %d: body %q cannot stand in a literal", seed, body)
+		}
+	}
+	for d := 0; d < 4; d++ {
+		if seenDepth[d] < 1000 {
+			t.Errorf("depth %d generated only %d times", d, seenDepth[d])
+		}
 	}
 }
